@@ -236,8 +236,8 @@ def coq_case(H, A, L, W, c, sinces):
         table[h] = (d, w)
     ents = "; ".join(f"({h}, {d})" for h, (d, _) in sorted(table.items())
                      if d is not None)
-    return (f"(({H}, {A}, {L}, {W}), {coq_bytes(c)}, [{ents}], "
-            f"{vlib.zl(sinces)})")
+    return (f"(({H}, {A}, {L}, {W}), {coq_bytes(c)}, "
+            f"([{ents}] : list (Z * Z)), ({vlib.zl(sinces)} : list Z))")
 
 
 # --------------------------------------------------------------- generators
@@ -478,8 +478,9 @@ def run(chk):
 
     # structured, real constants
     items = []
-    sizes = ([1, 1, 2, 2, 3, 3, 4, 4, 5, 5, 6, 6, 7, 8, 9, 10, 12, 15, 20, 25,
-              30, 40, 50, 80, 150, 400] if q else
+    sizes = ([1, 1, 2, 2, 2, 3, 3, 3, 4, 4, 5, 5, 6, 6, 7, 7, 8, 8, 9, 10, 11,
+              12, 14, 15, 17, 20, 25, 30, 40, 50, 60, 80, 110, 150, 250, 400]
+             if q else
              [1, 2, 3, 4, 5, 6, 7, 8, 9, 10, 12, 15, 20, 30, 50, 80, 120,
               200, 300, 400] * 6)
     for k, nl in enumerate(sizes):
@@ -496,7 +497,7 @@ def run(chk):
 
     # structured, patched H (and small L), A kept large enough for the lines
     items = []
-    per = 8 if q else 30
+    per = 12 if q else 30
     for H in (1, 2, 3, 4, 7, 8, 16):
         for k in range(per):
             L = rng.choice([2, 3, 4, L0])
@@ -518,7 +519,7 @@ def run(chk):
 
     # hostile (model vs implementation only; the spec makes no claim)
     items = []
-    nh = 100 if q else 600
+    nh = 160 if q else 600
     for k in range(nh):
         kind = rng.choice(['unordered', 'longrun', 'overlong', 'mixed'])
         H = rng.choice([1, 2, 3, 4, 7, 8, 16, H0])
@@ -564,7 +565,7 @@ def run(chk):
                  'first_in_window': want,
                  'exact_budget_hypothesis_h1_holds': h1})
 
-    done = suffix_runs(chk, metas, 40 if q else 300)
+    done = suffix_runs(chk, metas, 60 if q else 300)
     chk.dist('suffix_comparisons', done)
     nontrivial = set()
     for (H, A, L, W, c, sinces, source, inside) in metas:
